@@ -128,7 +128,7 @@ def build_lean(prop):
             res["failed"] += gen_msgs
             res["log"] += "\n".join(gen_msgs)
         # 1. the driver (depends on Model only; must build even if a proof breaks)
-        rc, out = run(["lake", "build", cfg["driver"]], cwd=LEAN)
+        rc, out = run(["lake", "build", cfg["driver"]] + [u["driver"] for u in cfg.get("also", []) if u.get("driver")], cwd=LEAN)
         if rc != 0:
             res["ok"] = False
             res["failed"].append("driver:" + cfg["driver"])
@@ -281,9 +281,9 @@ def sig_of(engine, flag):
 
 
 class Runner:
-    def __init__(self, prop, tier, seed):
+    def __init__(self, prop, tier, seed, cfg=None):
         self.prop, self.tier, self.seed = prop, tier, seed
-        self.cfg = PROPS[prop]
+        self.cfg = cfg or PROPS[prop]
         self.engine = self.cfg["engine"]
         self.reset_op = None if self.cfg.get("case_mode") else self.cfg.get("reset_op", "reset")
         self.tmp = tempfile.mkdtemp(prefix=f"verif_{prop}_", dir=os.environ.get("VERIF_TMP", "/var/tmp"))
@@ -391,18 +391,28 @@ def main(argv):
                                       coverage=dict(obligations=max(1, lean.get("obligations", 1)), discharged=0, checker_cmd="lake build", trusted_base=[],
                                                     evaluations=0, distinct_nontrivial=0, rule="driver failed to build", samples=[])))
             return 1
-        binpath, blog = build_harness(cfg["harness"])
-        if binpath is None:
-            rp = os.path.join(VERIF, "replays", f"{prop}-{seed}-build.json")
-            json.dump(dict(property=prop, broken="harness does not build against the working tree", log=blog[-6000:]), open(rp, "w"), indent=1)
-            print(f"VIOLATION property={prop} replay={rp} no-failing-input-found")
-            log(blog[-3000:])
-            return 1
+        # a property may be served by several engines (`also`): each unit has its own harness, driver and budget
+        units = [cfg] + [dict(cfg, **u) for u in cfg.get("also", [])]
+        for u in units[1:]:
+            u.pop("also", None)
+        runners, bins = [], []
+        for ui, ucfg in enumerate(units):
+            b, blog = build_harness(ucfg["harness"])
+            if b is None:
+                rp = os.path.join(VERIF, "replays", f"{prop}-{seed}-build.json")
+                json.dump(dict(property=prop, broken="harness does not build against the working tree", harness=ucfg["harness"], log=blog[-6000:]), open(rp, "w"), indent=1)
+                print(f"VIOLATION property={prop} replay={rp} no-failing-input-found")
+                log(blog[-3000:])
+                return 1
+            bins.append(b)
+            runners.append(R if ui == 0 else Runner(prop, tier, seed, ucfg))
+        binpath = bins[0]
 
         if a.replay:
             rj = json.load(open(a.replay))
             ops = rj.get("trace", [])
-            lines, flags, stats, rc, hout = R.replay_ops(binpath, ops)
+            ui = next((i for i, r in enumerate(runners) if r.engine == rj.get("engine")), 0)
+            lines, flags, stats, rc, hout = runners[ui].replay_ops(bins[ui], ops)
             for l in lines:
                 print(l)
             for f in flags:
@@ -414,80 +424,82 @@ def main(argv):
             print("replay: no flag raised")
             return 0
 
-        tcfg = cfg[tier]
-        shards = tcfg.get("shards", 8)
-        jobs = []
-        # corpus first
-        for cf in sorted(glob.glob(os.path.join(VERIF, "corpus", R.engine, "*.trace"))):
-            if cfg.get("corpus_filter") and not re.search(cfg["corpus_filter"], os.path.basename(cf)):
-                continue
-            jobs.append(("corpus_" + os.path.basename(cf), dict(VH_REPLAY=cf, VH_SEED=seed)))
-        for sh in range(shards):
-            env = dict(VH_SEED=seed * 100003 + sh, VH_N=max(1, tcfg["n"] // shards), VH_LEN=tcfg.get("len", 30))
-            for k, v in tcfg.get("extra", {}).items():
-                env["VH_X_" + k.upper()] = v
-            for k, v in cfg.get("extra", {}).items():
-                env.setdefault("VH_X_" + k.upper(), v)
-            se = cfg.get("shard_extra")
-            if se:   # per-shard variation (e.g. harness level), cycled over the shards
-                for k, v in se[sh % len(se)].items():
-                    env["VH_X_" + k.upper()] = v
-            jobs.append((f"gen{sh}", env))
-        timeout = tcfg.get("timeout", 600)
-        with ThreadPoolExecutor(max_workers=int(os.environ.get("VERIF_JOBS", "8"))) as ex:
-            results = list(ex.map(lambda j: (j[0],) + R.exec_trace(binpath, j[1], j[0], timeout), jobs))
-
         evals, distinct, samples, dist, stats_all = 0, set(), [], {}, {}
-        nontrivial_re = re.compile(cfg.get("nontrivial", r"."))
         all_flags = []
-        for tag, lines, flags, stats, rc, hout in results:
-            hs = split_histories(lines, R.reset_op)
-            evals += len(hs)
-            for h in hs:
-                body = [l for l in (h if R.reset_op is None else h[1:])]
-                kinds = {l.split(" ", 1)[0] for l in body}
-                if len(body) >= cfg.get("min_ops", 3) and len(kinds) >= cfg.get("min_kinds", 2) and any(nontrivial_re.search(l) for l in body):
-                    distinct.add(hashlib.sha1("\n".join(h).encode()).hexdigest())
-            if hs and len(samples) < 2:
-                samples.append(hs[0][:14])
-            for l in lines:
-                if l.startswith("#DIST "):
-                    _, k, v = l.split()
-                    dist[k] = dist.get(k, 0) + int(v)
-            for k, v in stats.items():
-                if isinstance(v, int):
-                    stats_all[k] = stats_all.get(k, 0) + v
-            if rc != 0:
-                # harness crashed / timed out: that is an observation about the implementation (or our harness)
-                all_flags.append((tag, lines, dict(kind="HARNESS", line=len(lines), op="harness", name=f"exit{rc}", text=hout[-1500:])))
-            ff = cfg.get("flag_filter")
-            for f in flags:
-                if ff and f["kind"] != "BADLINE" and not re.search(ff, f["name"]):
-                    continue      # belongs to a sibling property served by the same engine
-                all_flags.append((tag, lines, f))
+        for ui, (ucfg, UR, ubin) in enumerate(zip(units, runners, bins)):
+            tcfg = ucfg[tier]
+            shards = tcfg.get("shards", 8)
+            jobs = []
+            # corpus first
+            for cf in sorted(glob.glob(os.path.join(VERIF, "corpus", UR.engine, "*.trace"))):
+                if ucfg.get("corpus_filter") and not re.search(ucfg["corpus_filter"], os.path.basename(cf)):
+                    continue
+                jobs.append((f"u{ui}corpus_" + os.path.basename(cf), dict(VH_REPLAY=cf, VH_SEED=seed)))
+            for sh in range(shards):
+                env = dict(VH_SEED=seed * 100003 + sh, VH_N=max(1, tcfg["n"] // shards), VH_LEN=tcfg.get("len", 30))
+                for k, v in tcfg.get("extra", {}).items():
+                    env["VH_X_" + k.upper()] = v
+                for k, v in ucfg.get("extra", {}).items():
+                    env.setdefault("VH_X_" + k.upper(), v)
+                se = ucfg.get("shard_extra")
+                if se:   # per-shard variation (e.g. harness level), cycled over the shards
+                    for k, v in se[sh % len(se)].items():
+                        env["VH_X_" + k.upper()] = v
+                jobs.append((f"u{ui}gen{sh}", env))
+            timeout = tcfg.get("timeout", 600)
+            with ThreadPoolExecutor(max_workers=int(os.environ.get("VERIF_JOBS", "8"))) as ex:
+                results = list(ex.map(lambda j: (j[0],) + UR.exec_trace(ubin, j[1], j[0], timeout), jobs))
+
+            nontrivial_re = re.compile(ucfg.get("nontrivial", r"."))
+            for tag, lines, flags, stats, rc, hout in results:
+                hs = split_histories(lines, UR.reset_op)
+                evals += len(hs)
+                for h in hs:
+                    body = [l for l in (h if UR.reset_op is None else h[1:])]
+                    kinds = {l.split(" ", 1)[0] for l in body}
+                    if len(body) >= ucfg.get("min_ops", 3) and len(kinds) >= ucfg.get("min_kinds", 2) and any(nontrivial_re.search(l) for l in body):
+                        distinct.add(hashlib.sha1("\n".join(h).encode()).hexdigest())
+                if hs and len(samples) < 2 + ui:
+                    samples.append(hs[0][:14])
+                for l in lines:
+                    if l.startswith("#DIST "):
+                        _, k, v = l.split()
+                        dist[k] = dist.get(k, 0) + int(v)
+                for k, v in stats.items():
+                    if isinstance(v, int):
+                        stats_all[k] = stats_all.get(k, 0) + v
+                if rc != 0:
+                    # harness crashed / timed out: that is an observation about the implementation (or our harness)
+                    all_flags.append((tag, lines, dict(kind="HARNESS", line=len(lines), op="harness", name=f"exit{rc}", text=hout[-1500:]), ui))
+                ff = ucfg.get("flag_filter")
+                for f in flags:
+                    if ff and f["kind"] != "BADLINE" and not re.search(ff, f["name"]):
+                        continue      # belongs to a sibling property served by the same engine
+                    all_flags.append((tag, lines, f, ui))
 
         known = [k for k in load_known() if k.get("property") == prop and not k.get("fixed")]
         known_sigs = {k["signature"]: k for k in known}
         seen_sig = {}
-        for tag, lines, f in all_flags:
-            sig = sig_of(R.engine, f)
-            seen_sig.setdefault(sig, []).append((tag, lines, f))
+        for tag, lines, f, ui in all_flags:
+            sig = sig_of(runners[ui].engine, f)
+            seen_sig.setdefault(sig, []).append((tag, lines, f, ui))
 
         monitors = {s: v for s, v in seen_sig.items() if "|MONITOR:" in s}
         others = {s: v for s, v in seen_sig.items() if "|MONITOR:" not in s}
         nviol = 0
         for sig, occ in sorted(monitors.items()):
-            tag, lines, f = occ[0]
-            hist = history_of(lines, f["line"], R.reset_op)
+            tag, lines, f, ui = occ[0]
+            UR, ubin = runners[ui], bins[ui]
+            hist = history_of(lines, f["line"], UR.reset_op)
             if sig in known_sigs:
                 known_hits.append(sig)
                 print(f"KNOWN-FINDING: property={prop} {known_sigs[sig]['what']} [{sig}] ({len(occ)} occurrences)")
                 continue
             # shrinking re-runs the harness many times: do it for the first few distinct signatures only
-            shr, repro = R.shrink(binpath, hist, f) if nviol < int(os.environ.get("VERIF_SHRINK_MAX", "3")) else (hist, None)
+            shr, repro = UR.shrink(ubin, hist, f) if nviol < int(os.environ.get("VERIF_SHRINK_MAX", "3")) else (hist, None)
             nviol += 1
             rp = os.path.join(VERIF, "replays", f"{prop}-{seed}-{nviol}.json")
-            json.dump(dict(property=prop, engine=R.engine, seed=seed, tier=tier, signature=sig, flag=f["text"],
+            json.dump(dict(property=prop, engine=UR.engine, seed=seed, tier=tier, signature=sig, flag=f["text"],
                            reproducible_by_replay=repro, trace=[l for l in shr if not l.startswith("#")],
                            replay_cmd=f"bin/check {prop} --replay {rp}"), open(rp, "w"), indent=1)
             print(f"VIOLATION property={prop} replay={rp}")
@@ -510,10 +522,11 @@ def main(argv):
                     json.dump(dict(property=prop, broken_obligations=b[1], lean_log=b[2][-6000:],
                                    note="proof obligation no longer checks; no failing input found by the differential runs"), open(rp, "w"), indent=1)
                 else:
-                    tag, lines, f = b[2][0]
-                    hist = history_of(lines, f["line"], R.reset_op) if f["kind"] != "HARNESS" else lines[-40:]
-                    shr, repro = (R.shrink(binpath, hist, f) if f["kind"] == "MISMATCH" else (hist, False))
-                    json.dump(dict(property=prop, engine=R.engine, seed=seed, tier=tier, signature=b[1], flag=f["text"],
+                    tag, lines, f, ui = b[2][0]
+                    UR, ubin = runners[ui], bins[ui]
+                    hist = history_of(lines, f["line"], UR.reset_op) if f["kind"] != "HARNESS" else lines[-40:]
+                    shr, repro = (UR.shrink(ubin, hist, f) if f["kind"] == "MISMATCH" else (hist, False))
+                    json.dump(dict(property=prop, engine=UR.engine, seed=seed, tier=tier, signature=b[1], flag=f["text"],
                                    broken="correspondence model<->implementation", reproducible_by_replay=repro,
                                    trace=[l for l in shr if not l.startswith("#")],
                                    replay_cmd=f"bin/check {prop} --replay {rp}"), open(rp, "w"), indent=1)
@@ -544,6 +557,8 @@ def main(argv):
         return 1 if violations else 0
     finally:
         R.cleanup()
+        for r_ in locals().get("runners", [])[1:]:
+            r_.cleanup()
 
 
 if __name__ == "__main__":
